@@ -16,6 +16,15 @@ def H(name, tier="quick", **kw):
 
 PROPS = {}
 
+def M(name, tier="quick", **kw):
+    d = {"name": name, "tier": tier}; d.update(kw); return d
+
+_M_NOTE = ("engine M: thread programs over the MIR of the listed functions (feature-off build), symbolic scheduler, all schedules with at most "
+           "the stated number of visible steps, sequential consistency, compare_exchange_weak never fails spuriously (quick)")
+_M_TECH = "solver-based checking of the real code: rustc MIR of /repo -> bit-vector BMC over schedules (z3 bit-blast, kissat) + Kani/CBMC harnesses; counterexamples replayed natively"
+
+
+
 PROPS["C15"] = {
     "bounds": "engine K: two instances of the same container (origin 0 vs. origin = any u32), same solver-chosen script of L<=5 (quick) operations send(any u32)/recv/len, then a full drain; BUFFER_SIZE 2 (quick), 4 (thorough)",
     "outside": "BUFFER_SIZE > 4; scripts longer than L; usize counters of the mmap log; release-profile (overflow-checks=off) builds in the quick tier",
@@ -32,6 +41,9 @@ _C08_STUBS = ["std::hint::spin_loop -> no-op (the x86 `pause` intrinsic is unsup
 _CH_STUBS = _C08_STUBS + ["StreamsManagerBase::wake_stream -> no-op (delivery-only oracle: waking cannot change what consume() returns)",
                           "<[u32]>::sort_unstable -> insertion sort (justified by c00::sort_stub_agrees_with_real_sort)"]
 PROPS["C08"] = {
+    "engine": "kani-real + mir-bmc", "technique": _M_TECH,
+    "m": [M("c08_reserve_vs_consumer_n2_k0"), M("c08_reserve_vs_consumer_n2_k1", "thorough"), M("c08_two_reservers_vs_consumer_n2_k0", "thorough"), M("c08_reserve_vs_consumer_n4_k3", "thorough")],
+    "k_budget": {"quick": {"jobs": 2, "timeout_s": 1200, "mem_gb": 14}, "thorough": {"jobs": 3, "timeout_s": 10800, "mem_gb": 30}},
     "bounds": "engine K: solver-chosen scripts of L operations out of {reserve+fill(any u32), send-reserved(oldest), send-reserved(newest, out of order), cancel(newest), plain send(any u32), receive}, origin any u32, then resolve all reservations (solver picks send/cancel), drain, refill BUFFER_SIZE, one extra send must be rejected; L=5,N=2 (quick) / L=6,N=4 (thorough)",
     "outside": "payloads with destructors (excluded by the statement); BUFFER_SIZE > 4; scripts longer than L; interleavings with a concurrently polling consumer are covered by engine M queries only within their thread/step bounds",
     "functions": ["AtomicMove::{leak_slot_internal,try_publish_leaked_internal_index,try_unleak_slot_index_internal,slot_index_from_slot_ref,publish_movable,consume_movable}",
@@ -41,21 +53,14 @@ PROPS["C08"] = {
                     "the reservation that is next in line must be accepted by try_send_reserved in a sequential run (otherwise it could never be sent)"],
     "k": [
         H("c08::c08_ring_atomic_n2_l5", inst="AtomicMove<u32,2> driven as uni::channels::movable::atomic does", bounds="L=5, N=2, origin any u32", oracle="FIFO model of sent slots; capacity restored", stubs=_C08_STUBS),
-        H("c08::c08_zc_atomic_n2_l5", inst="AtomicZeroCopy<u32, OgreArrayPoolAllocator<u32,AtomicMove<u32,2>,2>, 2>", bounds="L=5, N=2, origin any u32", oracle="FIFO model of sent slots; capacity restored", stubs=_C08_STUBS),
-        H("c08::c08_zc_full_sync_n2_l5", inst="FullSyncZeroCopy<u32, OgreArrayPoolAllocator<u32,FullSyncMove<u32,2>,2>, 2>", bounds="L=5, N=2, origin any u32", oracle="FIFO model of sent slots; capacity restored", stubs=_C08_STUBS),
+        H("c08::c08_zc_atomic_n2_l5", tier="thorough", group="g1", inst="AtomicZeroCopy<u32, OgreArrayPoolAllocator<u32,AtomicMove<u32,2>,2>, 2>", bounds="L=5, N=2, origin any u32", oracle="FIFO model of sent slots; capacity restored", stubs=_C08_STUBS),
+        H("c08::c08_zc_full_sync_n2_l5", tier="thorough", group="g1", inst="FullSyncZeroCopy<u32, OgreArrayPoolAllocator<u32,FullSyncMove<u32,2>,2>, 2>", bounds="L=5, N=2, origin any u32", oracle="FIFO model of sent slots; capacity restored", stubs=_C08_STUBS),
         H("c08::c08_ring_atomic_n4_l6", tier="thorough", inst="AtomicMove<u32,4>", bounds="L=6, N=4, origin any u32", stubs=_C08_STUBS, group="g1"),
         H("c08::c08_uni_move_atomic_n2_l3", tier="thorough", inst="ChannelUniMoveAtomic<u32,2,1>", bounds="L=3", stubs=_CH_STUBS, group="g1"),
         H("c08::c08_uni_zero_copy_atomic_n2_l3", tier="thorough", inst="ChannelUniZeroCopyAtomic<u32,2,1>", bounds="L=3", stubs=_CH_STUBS, group="g1"),
         H("c08::c08_uni_zero_copy_full_sync_n2_l3", tier="thorough", inst="ChannelUniZeroCopyFullSync<u32,2,1>", bounds="L=3", stubs=_CH_STUBS, group="g1"),
     ],
 }
-
-def M(name, tier="quick", **kw):
-    d = {"name": name, "tier": tier}; d.update(kw); return d
-
-_M_NOTE = ("engine M: thread programs over the MIR of the listed functions (feature-off build), symbolic scheduler, all schedules with at most "
-           "the stated number of visible steps, sequential consistency, compare_exchange_weak never fails spuriously (quick)")
-_M_TECH = "solver-based checking of the real code: rustc MIR of /repo -> bit-vector BMC over schedules (z3 bit-blast, kissat) + Kani/CBMC harnesses; counterexamples replayed natively"
 
 PROPS["C01"] = {
     "engine": "mir-bmc + kani-real", "technique": _M_TECH,
@@ -65,7 +70,20 @@ PROPS["C01"] = {
     "m": [M("c01_atomic_1p2c_n2_k2"), M("c01_atomic_2p1c_n2_k1"), M("c01_fullsync_2p1c_n2_k1"), M("c01_zc_atomic_1p1c_n2_k1"), M("c01_zc_fullsync_1p1c_n2_k1"),
           M("c01_atomic_2p1c_n2_k0", "thorough"), M("c01_atomic_2p2c_n2_k1", "thorough"), M("c01_atomic_2p2c_n4_k3", "thorough"), M("c01_atomic_3p1c_n2_k1", "thorough"),
           M("c01_fullsync_2p2c_n2_k1", "thorough"), M("c01_zc_atomic_2p1c_n2_k1", "thorough"), M("c01_zc_fullsync_2p1c_n2_k1", "thorough")],
-    "k": [],
+    "k": [
+        H("c01::c01_ring_atomic_n2_l5", inst="AtomicMove<u32,2>", bounds="L=5 ops {send, send_with, recv, len}, origin any u32, then drain + refill", oracle="array FIFO model; rejected payload/setter handed back unchanged / un-invoked", stubs=_C08_STUBS),
+        H("c01::c01_ring_full_sync_n2_l5", inst="FullSyncMove<u32,2>", bounds="L=5, origin any u32", oracle="array FIFO model", stubs=_C08_STUBS),
+        H("c01::c01_zc_full_sync_n2_l4", tier="thorough", inst="FullSyncZeroCopy<u32,..,2>", bounds="L=4", stubs=_C08_STUBS, group="g1"),
+        H("c01::c01_zc_atomic_n2_l4", tier="thorough", inst="AtomicZeroCopy<u32,..,2>", bounds="L=4", stubs=_C08_STUBS, group="g1"),
+        H("c01::c01_ring_atomic_n4_l6", tier="thorough", inst="AtomicMove<u32,4>", bounds="L=6", stubs=_C08_STUBS, group="g1"),
+        H("c01::c01_ring_full_sync_n4_l6", tier="thorough", inst="FullSyncMove<u32,4>", bounds="L=6", stubs=_C08_STUBS, group="g1"),
+        H("c01::c01_uni_move_atomic_n2_l3", tier="thorough", inst="ChannelUniMoveAtomic<u32,2,1>", bounds="L=3", stubs=_CH_STUBS, group="g2"),
+        H("c01::c01_uni_move_full_sync_n2_l3", tier="thorough", inst="ChannelUniMoveFullSync<u32,2,1>", bounds="L=3", stubs=_CH_STUBS, group="g2"),
+        H("c01::c01_uni_zero_copy_atomic_n2_l3", tier="thorough", inst="ChannelUniZeroCopyAtomic<u32,2,1>", bounds="L=3", stubs=_CH_STUBS, group="g2"),
+        H("c01::c01_uni_zero_copy_full_sync_n2_l3", tier="thorough", inst="ChannelUniZeroCopyFullSync<u32,2,1>", bounds="L=3", stubs=_CH_STUBS, group="g2"),
+        H("c01::c01_uni_move_crossbeam_n2_l3", tier="thorough", inst="ChannelUniMoveCrossbeam<u32,2,1>", bounds="L=3", stubs=_CH_STUBS, group="g2"),
+    ],
+    "k_budget": {"quick": {"jobs": 2, "timeout_s": 1200, "mem_gb": 14}, "thorough": {"jobs": 4, "timeout_s": 10800, "mem_gb": 30}},
 }
 PROPS["C02"] = {
     "engine": "mir-bmc + kani-real", "technique": _M_TECH,
@@ -76,4 +94,34 @@ PROPS["C02"] = {
           M("c02_atomic_lin_2p2c_n2_k1", "thorough"), M("c02_atomic_lin_2p2c_n2_k2", "thorough"), M("c02_atomic_lin_2p1c_n4_k3", "thorough"), M("c02_fullsync_lin_2p2c_n2_k1", "thorough"),
           M("c02_zc_atomic_lin_pp_cc_n2_k1", "thorough"), M("c02_zc_fullsync_lin_p_cc_n2_k1", "thorough")],
     "k": [],
+}
+
+PROPS["C13"] = {
+    "engine": "mir-bmc + kani-real", "technique": _M_TECH,
+    "bounds": "engine M: 2-3 threads x <=3 allocator calls, POOL_SIZE 2 (quick) / 4 (thorough), free-list order and origin symbolic, both free-list kinds, linearizability against a bag of slot ids; engine K: scripts of L=5 alloc / dealloc_id / dealloc_ref from any origin with an ownership ledger, exhaust + refill, id<->ref bijection for payloads of 1, 4, 24 bytes",
+    "outside": "POOL_SIZE 8; more than 3 threads; orderings weaker than SC",
+    "assumptions": [_M_NOTE],
+    "m": [M("c13_atomic_n2_a_vs_afa"), M("c13_atomic_n2_exhaust"), M("c13_fullsync_n2_a_vs_afa"), M("c13_atomic_n2_refs", "thorough"),
+          M("c13_atomic_n4_3thr", "thorough"), M("c13_fullsync_n2_exhaust", "thorough"), M("c13_atomic_n2_2x_afa", "thorough")],
+    "k": [
+        H("c13::c13_pool_atomic_n2_l5", inst="OgreArrayPoolAllocator<u32, AtomicMove<u32,2>, 2>", bounds="L=5, origin any u32", oracle="ownership ledger: never a slot that is still allocated; fails only when all are outstanding; id/ref conversions agree", stubs=_C08_STUBS),
+        H("c13::c13_pool_full_sync_n2_l5", inst="OgreArrayPoolAllocator<u32, FullSyncMove<u32,2>, 2>", bounds="L=5, origin any u32", stubs=_C08_STUBS),
+        H("c13::c13_bijection_u8_n4", inst="pool of u8 x4", bounds="all id pairs", oracle="id<->reference bijection onto the pool", stubs=_C08_STUBS),
+        H("c13::c13_bijection_u32_n4", inst="pool of u32 x4", bounds="all id pairs", stubs=_C08_STUBS),
+        H("c13::c13_bijection_p24_n4", inst="pool of 24-byte structs x4", bounds="all id pairs", stubs=_C08_STUBS),
+        H("c13::c13_pool_atomic_n4_l6", tier="thorough", inst="pool of u32 x4 over AtomicMove", bounds="L=6", stubs=_C08_STUBS, group="g1"),
+    ],
+    "k_budget": {"quick": {"jobs": 3, "timeout_s": 1200, "mem_gb": 14}, "thorough": {"jobs": 3, "timeout_s": 7200, "mem_gb": 30}},
+}
+PROPS["C14"] = {
+    "engine": "mir-bmc + kani-real", "technique": _M_TECH,
+    "bounds": "engine M: 2 (quick) / 3 (thorough) threads each holding one handle to the same pooled value, <=2 operations each out of {clone+drop, bulk increment+raw copy+drop, dereference, count, drop}, then a thread that allocates POOL_SIZE+1 times; engine K: scripts of L<=4 clone / drop / increment+raw_copy / deref+count over new_with_clones::<2> and OgreUnique::new + into_ogre_arc with a destructor-counting payload",
+    "outside": "more than 3 threads; Acquire/Release pairing of the final drop (SC only); handles that outlive their allocator",
+    "assumptions": [_M_NOTE, "engine M models the control block as a heap object with a ghost 'alive' bit: any access after Box::from_raw + drop is an error"],
+    "m": [M("c14_last_two_drops"), M("c14_clone_vs_final_drop"), M("c14_bulk_increment_vs_drop"), M("c14_three_threads", "thorough"), M("c14_fullsync_last_two_drops", "thorough"), M("c14_keep_one", "thorough")],
+    "k": [
+        H("c14::c14_new_with_clones_script_l4", inst="OgreArc<Payload, pool x2 over AtomicMove>", bounds="L=4, origin any u32", oracle="destructor runs exactly once, exactly at the last drop; count == live handles; deref == original value; slot returned exactly once", stubs=_C08_STUBS),
+        H("c14::c14_unique_into_arc_script_l3", inst="OgreUnique -> OgreArc", bounds="L=3", stubs=_C08_STUBS),
+    ],
+    "k_budget": {"quick": {"jobs": 2, "timeout_s": 1200, "mem_gb": 14}},
 }
